@@ -15,20 +15,20 @@ SEQ = {
     "C01": (["C01."], ["limits", "randsched", "typestate", "core"]),
     "C02": (["C02."], ["core", "randsched", "eom", "fine", "retarget"]),
     "C03": (["C03."], ["core", "randsched", "eom", "fine", "phasejump"]),
+    "C18": (["C18."], ["switch", "rel"]),
     "C04": (["C04."], ["rel"]),
     "C05": (["C05."], ["ham"]),
     "C06": (["C06."], ["render"]),
-    "C14": (["C14."], ["render"]),
     "C07": (["C07."], ["phases", "core", "randsched", "eom", "phasejump", "typestate"]),
     "C08": (["C08."], ["template"]),
     "C09": (["C09."], ["core", "typestate", "randsched", "eom", "limits", "template", "rel"]),
     "C10": (["C10."], ["core", "randsched", "eom", "fine", "retarget", "phasejump"]),
     "C13": (["C13."], ["typestate", "eom", "template"]),
-    "C15": (["C15."], ["eom", "eomdrift"]),
+    "C15": (["C15."], ["eom", "eomdrift", "render"]),
 }
 
 
-EXTRA = {"C19", "C12", "C16", "C17", "C20", "C11"}
+EXTRA = {"C19", "C12", "C16", "C17", "C20", "C11", "C14"}
 
 
 def seq_property(prop, tier):
